@@ -514,6 +514,9 @@ TRUSTED_BASE = [
     "axioms: propext, Classical.choice, Quot.sound only (audited with #print axioms on every run; no sorry/native_decide/bv_decide/own axioms)",
     "Mathlib v4.33.0 modules imported by Proofs/ and Props/",
     "hand-written Lean model (lean/Model) tied to /repo by the correspondence suites named in this file: differential testing, not proof",
+    "where the property module list contains a ...Gen module: tools/py2lean.py + tools/py2lean_layout.py (translator, re-run on the working tree on every run) and "
+    "lean/PyLib.lean (meaning of the translated Python fragment: naturals with checked subtraction, explicit exceptions, sets as duplicate-free lists); "
+    "the bridge theorems in lean/Bridge are kernel-checked, the translator and PyLib are trusted",
     "Spec definitions in lean/Props and lean/Proofs (my formalisation of the property statement)",
     "correspondence harness (harness/*.py, generators, canonicalisation), CPython 3.12",
 ]
